@@ -39,6 +39,10 @@ const (
 	vpItHelp             // Iterator.Next: current node marked, before helping
 	vpItRefresh          // Iterator.Refresh
 	vpAbR6               // Release: try-lock released, before re-checking the queue
+	vpSlMarkLoad         // softDelete: before loading the node's link at a level
+	vpSlReload           // findPath: unlink CAS succeeded, before reloading the predecessor's link
+	vpSlReload2          // findPath: before loading the new current node's link
+	vpItSeek             // Iterator.SeekFirst / Seek
 )
 
 // Exported names of the yield points for harnesses.
@@ -73,6 +77,10 @@ const (
 	VPItHelp      = vpItHelp
 	VPItRefresh   = vpItRefresh
 	VPAbR6        = vpAbR6
+	VPSlMarkLoad  = vpSlMarkLoad
+	VPSlReload    = vpSlReload
+	VPSlReload2   = vpSlReload2
+	VPItSeek      = vpItSeek
 )
 
 // VerifHook is called at every yield point when non-nil. A hook may block
